@@ -9,6 +9,11 @@ type C04Case struct {
 	// PreKill (cleanup): Kill was called on this managed client before its Start (a no-op on a client that has
 	// no process yet); the process it starts afterwards is still CleanupClients' to end
 	PreKill []bool `json:"preKill,omitempty"`
+	// PreCleanup (cleanup): CleanupClients ran once after the first managed client was created and before it
+	// was started. DoubleCleanup: a second CleanupClients call is issued 150 ms after the first, while that one
+	// is still at work; when the second returns every managed plugin must be gone as well
+	PreCleanup    bool `json:"preCleanup,omitempty"`
+	DoubleCleanup bool `json:"doubleCleanup,omitempty"`
 }
 
 type C04Client struct {
@@ -30,4 +35,6 @@ type C04Client struct {
 type C04Obs struct {
 	Clients    []C04Client `json:"clients"`
 	KilledFlag uint32      `json:"killedFlag"` // plugin.Killed after CleanupClients
+	// DoubleCleanup: states of the managed plugins at the moment the second CleanupClients call returned
+	SecondReturnStates []string `json:"secondReturnStates,omitempty"`
 }
